@@ -159,6 +159,36 @@ mod verif_k {
         kani::cover!(c == 3 && s == 1 && id == 30, "corner reachable");
     }
 
+    // X.690 8.1.2.4: tag numbers above 30 -- leading octet with the five tag bits set, then the number in base 128, most
+    // significant group first, bit 8 set on every octet but the last.  Every u64 above 30 (1..=10 groups).
+    #[kani::proof]
+    #[kani::unwind(12)]
+    fn write_type_high_tag_numbers() {
+        let c: u8 = kani::any();
+        kani::assume(c < 4);
+        let s: u8 = kani::any();
+        kani::assume(s < 2);
+        let id: u64 = kani::any();
+        kani::assume(id > 30);
+        let mut out: Vec<u8> = Vec::new();
+        write_type(&mut out, TagClass::from_u8(c).unwrap(), TagStructure::from_u8(s).unwrap(), id);
+        // oracle: number of 7-bit groups
+        let mut groups: usize = 0;
+        let mut t = id;
+        while t > 0 { groups += 1; t >>= 7; }
+        assert!(out.len() == 1 + groups);
+        assert!(out[0] == (c << 6) | (s << 5) | 0x1f);
+        let mut k: usize = 0;
+        while k < groups {
+            let g = ((id >> (7 * (groups - 1 - k))) & 0x7f) as u8;
+            let want = if k + 1 == groups { g } else { g | 0x80 };
+            assert!(out[1 + k] == want);
+            k += 1;
+        }
+        kani::cover!(groups == 10, "ten groups reachable");
+        kani::cover!(groups == 1, "one group reachable");
+    }
+
     // parse_length inverts write_length for every usize and leaves the trailing byte untouched
     #[kani::proof]
     #[kani::unwind(11)]
